@@ -75,8 +75,10 @@ class Formatter:
         "MMM": "months.abbreviated",
         "Mo": None,
         "DDDo": None,
-        "Do": lambda locale: tuple(
-            rf"\d+{o}" for o in locale.get("custom.ordinal").values()
+        "Do": lambda locale: (
+            *(rf"\d+{o}" for o in (locale.get("custom.ordinal") or {}).values()),
+            # No suffix: what ordinalize() renders where the locale has none
+            r"\d+",
         ),
         "dddd": "days.wide",
         "ddd": "days.abbreviated",
